@@ -127,3 +127,30 @@ def guarded(execute):
             raise
     run.__name__ = getattr(execute, "__name__", "execute")
     return run
+
+
+import contextlib as _contextlib
+import logging as _logging
+
+
+@_contextlib.contextmanager
+def debug_logging(on, name="aiokafka"):
+    """Run the library with its loggers enabled for DEBUG (records end in a null handler, nothing is formatted or
+    printed).  What the library does must not depend on whether somebody listens to its log."""
+    if not on:
+        yield
+        return
+    lg = _logging.getLogger(name)
+    old = (lg.level, lg.propagate, _logging.root.manager.disable)
+    h = _logging.NullHandler()
+    lg.addHandler(h)
+    lg.setLevel(_logging.DEBUG)
+    lg.propagate = False
+    _logging.disable(_logging.NOTSET)
+    try:
+        yield
+    finally:
+        lg.removeHandler(h)
+        lg.setLevel(old[0])
+        lg.propagate = old[1]
+        _logging.disable(old[2])
